@@ -168,19 +168,19 @@ pub fn def(ctx: &Ctx) -> PropDef {
         ));
         subs.push(PSub::boxed(
             format!("states/{}", ty.name()),
-            t.pick(2000, 200_000),
+            t.pick(5000, 800_000),
             move || (gens::seed_for(ty, false), any::<bool>(), prop_oneof![Just(0usize), 1usize..=64]).prop_map(move |(s, long, outputs)| StateCase { ty, s, long, outputs }).boxed(),
             check_state,
         ));
         subs.push(PSub::boxed(
             format!("linear/{}", ty.name()),
-            t.pick(700, 60_000),
+            t.pick(2000, 250_000),
             move || (gens::seed_for(ty, false), gens::seed_for(ty, false), any::<bool>()).prop_map(move |(a, b, long)| PairCase { ty, a, b, long }).boxed(),
             check_linear,
         ));
         subs.push(PSub::boxed(
             format!("commute/{}", ty.name()),
-            t.pick(500, 40_000),
+            t.pick(1500, 150_000),
             move || (gens::seed_for(ty, false), 0usize..=64, 1usize..=8).prop_map(move |(s, k, repeats)| CommuteCase { ty, s, k, repeats }).boxed(),
             check_commute,
         ));
